@@ -660,12 +660,14 @@ long g_read_off;
   while (0)
 static inline int K_read_data(const struct PD* self, float* scale, int shape, int seg, int ax, int vw)
 {
-  const _Bool inside = shape == 0 ? 1 : shape == 1 ? (g_bin.axial_pos_num == ax && g_bin.view_num == vw) : shape == 2 ? g_bin.view_num == vw : g_bin.axial_pos_num == ax;
+  const _Bool inside = (shape == 0 || shape >= 4) ? 1 : shape == 1 ? (g_bin.axial_pos_num == ax && g_bin.view_num == vw) : shape == 2 ? g_bin.view_num == vw : g_bin.axial_pos_num == ax;
   if (inside && g_bin.segment_num == seg)
     {
       const long tg = g_bin.tangential_pos_num - self->min_tang;
-      const long k = shape == 0 ? 0 : shape == 1 ? tg : shape == 2 ? (long)(g_bin.axial_pos_num - self->min_ax[seg - self->min_seg]) * C02_T + tg
-                                                                   : (long)(g_bin.view_num - self->min_view) * C02_T + tg;
+      const long axi = g_bin.axial_pos_num - self->min_ax[seg - self->min_seg], vwi = g_bin.view_num - self->min_view;
+      /* element number inside the block: row [t]; viewgram [ax][t]; sinogram [view][t]; segment by sinogram [ax][view][t]; segment by view [view][ax][t] */
+      const long k = shape == 0 ? 0 : shape == 1 ? tg : shape == 2 ? axi * C02_T + tg : shape == 3 ? vwi * C02_T + tg
+                   : shape == 4 ? axi * C02_V * C02_T + vwi * C02_T + tg : VMUL(vwi, (long)NAXI(self, seg - self->min_seg) * C02_T) + axi * C02_T + tg;
       ++g_reads;
       g_read_off = g_seek + k * C02_E;
     }
@@ -810,4 +812,16 @@ static inline void K_fetch_viewgram(int view, int seg, int tof)
   __CPROVER_loop_invariant(timing_pos_num >= self->min_tof && timing_pos_num <= self->max_tof + 1 && !g_failed && !g_error) \
   __CPROVER_loop_invariant(g_calls == ((K23_IN(self) && (g_k2 < segment_num || (g_k2 == segment_num && g_k3 < timing_pos_num))) ? 1 : 0)) \
   __CPROVER_decreases(self->max_tof + 1 - timing_pos_num)
+
+/* get_segment_by_sinogram / get_segment_by_view: each reads the whole block itself for "its" storage order and otherwise
+   converts the result of the other one (called BY CONTRACT; the conversion constructors keep the values: trusted) */
+#define GETSEG_PRE(self, tof) (__CPROVER_is_fresh(self, sizeof(*self)) && PDS_READ_PRE(self) && ORDER_SUPPORTED(self) && g_bin.segment_num == segment_num && g_bin.timing_pos_num == (tof))
+#define CONTRACT_K_pds_get_segment_by_sinogram                                                                        \
+  __CPROVER_requires(GETSEG_PRE(self, timing_num))                                                                     \
+  __CPROVER_assigns(PDS_READ_ASSIGNS)                                                                                  \
+  __CPROVER_ensures(!g_error ==> READ_OK)
+#define CONTRACT_K_pds_get_segment_by_view                                                                            \
+  __CPROVER_requires(GETSEG_PRE(self, timing_pos))                                                                     \
+  __CPROVER_assigns(PDS_READ_ASSIGNS)                                                                                  \
+  __CPROVER_ensures(!g_error ==> READ_OK)
 #endif
